@@ -81,6 +81,96 @@ def mkThreshold (levels : List (Str × Int)) (l : LevelArg) : Except Err Int :=
   | .error e => .error e
   | .ok no => if Gen.addRejectsThreshold no then .error .valueError else .ok no
 
+/-! ### `add`'s dispatch on the run-time class of its arguments, as the code does it: the `if/elif` chains are
+REGENERATED in source order (`Gen.filterChain`, `Gen.dictValueChain`, `Gen.thresholdChain`) and interpreted here.
+Python's classes overlap – `""` is a `str`, `True`/`False` are `int`s, `builtins.filter` is callable – so the
+order of the tests is part of the meaning.  `mkFilter` / `mkDictVal` / `mkThreshold` above are the documented
+reading by disjoint kinds (what the spec uses); `Lemmas.mkFilterC_eq` … prove the chains denote it. -/
+
+/-- does the run-time test hold of the argument? -/
+def holdsF : Gen.FTest → FilterArg → Bool
+  | .isNone, .none => true
+  | .eqEmptyStr, .str s => s == []
+  | .isStr, .str _ => true
+  | .isDict, .dict _ => true
+  | .isCallable, .callable _ => true
+  | .isCallable, .builtinFilter => true
+  | _, _ => false
+
+/-- `isinstance(True, int)` holds: bools are ints -/
+def holdsV : Gen.VTest → DVal → Bool
+  | .isFalse, .false => true
+  | .isTrue, .true => true
+  | .isStr, .name _ => true
+  | .isInt, .int _ => true
+  | .isInt, .true => true
+  | .isInt, .false => true
+  | _, _ => false
+
+def actV (levels : List (Str × Int)) : Gen.VAct → DVal → Except Err (Option Int)
+  | .reject, _ => .ok none
+  | .const n, _ => .ok (some n)
+  | .levelByName, .name s => (getLevel levels s).map some
+  | .intValue, .int i => .ok (some i)
+  -- `levelno_ = level_` keeps the OBJECT: `True` then compares as the int 1 (`no >= True`), while `False` is still
+  -- `False` for `filter_by_level`'s identity test `level is False` (and `False < 0` does not raise)
+  | .intValue, .true => .ok (some 1)
+  | .intValue, .false => .ok none
+  | .typeError, _ => .error .typeError
+  | _, _ => .error .other
+
+def firstAct {τ α : Type} (chain : List (τ × α)) (els : α) (holds : τ → Bool) : α :=
+  match chain.find? (fun b => holds b.1) with
+  | some b => b.2
+  | none => els
+
+def mkDictValC (levels : List (Str × Int)) (v : DVal) : Except Err (Option Int) :=
+  actV levels (firstAct Gen.dictValueChain Gen.dictValueElse (fun t => holdsV t v)) v
+
+/-- the dict branch with the regenerated value chain -/
+def mkDictC (levels : List (Str × Int)) : List (DKey × DVal) → Except Err (List (Option Str × Option Int))
+  | [] => .ok []
+  | (k, v) :: rest =>
+    match (match k with | .bad => Except.error Err.typeError | .none => .ok none | .str s => .ok (some s)) with
+    | .error e => .error e
+    | .ok key =>
+      match mkDictValC levels v with
+      | .error e => .error e
+      | .ok lv =>
+        if (match lv with | some n => Gen.addRejectsDictLevel n | none => false) then .error .valueError
+        else match mkDictC levels rest with
+          | .error e => .error e
+          | .ok tl => .ok ((key, lv) :: tl)
+
+def actF (levels : List (Str × Int)) : Gen.FAct → FilterArg → Except Err Filter
+  | .noFilter, _ => .ok .none
+  | .filterNone, _ => .ok .notNone
+  | .byName, .str s => .ok (.byName (s ++ ['.']) (Int.ofNat (s ++ ['.']).length))
+  | .byLevel, .dict items => (mkDictC levels items).map .byLevel
+  | .callable, .callable k => .ok (.callable k)
+  | .callable, .builtinFilter => .error .valueError      -- `if filter == builtins.filter: raise ValueError`
+  | .typeError, _ => .error .typeError
+  | _, _ => .error .other
+
+def mkFilterC (levels : List (Str × Int)) (a : FilterArg) : Except Err Filter :=
+  actF levels (firstAct Gen.filterChain Gen.filterElse (fun t => holdsF t a)) a
+
+def holdsL : Gen.LTest → LevelArg → Bool
+  | .isStr, .name _ => true
+  | .isInt, .int _ => true
+  | _, _ => false
+
+def actL (levels : List (Str × Int)) : Gen.LAct → LevelArg → Except Err Int
+  | .levelByName, .name s => getLevel levels s
+  | .intValue, .int i => .ok i
+  | .typeError, _ => .error .typeError
+  | _, _ => .error .other
+
+def mkThresholdC (levels : List (Str × Int)) (l : LevelArg) : Except Err Int :=
+  match actL levels (firstAct Gen.thresholdChain Gen.thresholdElse (fun t => holdsL t l)) l with
+  | .error e => .error e
+  | .ok no => if Gen.addRejectsThreshold no then .error .valueError else .ok no
+
 /-- `Logger.level`: `.ok none` = plain read, `.ok (some n)` = (re)bind `name ↦ n` -/
 def levelDecision (levels : List (Str × Int)) (name : Str) (no : NoArg) (other : Bool) :
     Except Err (Option Int) :=
@@ -96,6 +186,24 @@ def levelDecision (levels : List (Str × Int)) (name : Str) (no : NoArg) (other 
     | some _, .int _ => .error .valueError
     | some _, .bad => .error .valueError
     | some old, .none => .ok (some old)
+
+/-- kind of the `no=` argument as `level` sees it: 0 `None`, 1 an int ≥ 0, 2 an int < 0, 3 not an int -/
+def noKind : NoArg → Nat
+  | .none => 0
+  | .int i => if Gen.levelRejectsNo i then 2 else 1
+  | .bad => 3
+
+/-- `Logger.level` as the code decides it: the outcome is LOOKED UP in `Gen.levelTable`, which the extractor
+obtains by running the body of `level` over the finite domain (kind of `no`) × (colour given) × (icon given) ×
+(level exists).  `other` = a colour or an icon is given. -/
+def levelDecisionC (levels : List (Str × Int)) (name : Str) (no : NoArg) (other : Bool) : Except Err (Option Int) :=
+  match Gen.levelTable.lookup (noKind no, other, false, (levels.lookup name).isSome) with
+  | some .read => .ok none
+  | some .create => (match no with | .int n => .ok (some n) | _ => .error .other)
+  | some .update => (match levels.lookup name with | some old => .ok (some old) | none => .error .other)
+  | some .typeError => .error .typeError
+  | some .valueError => .error .valueError
+  | none => .error .other
 
 /-! ### filters (`_filters.py`) and `Handler.emit`'s gate -/
 
@@ -148,10 +256,10 @@ def minOf : List Int → Option Int
 def add (c : Core) (a : AddArgs) : Core × Out :=
   let id := c.handlersCount
   let c := { c with handlersCount := c.handlersCount + 1 }
-  match mkFilter c.levels a.filter with
+  match mkFilterC c.levels a.filter with
   | .error e => (c, .err e)
   | .ok f =>
-    match mkThreshold c.levels a.level with
+    match mkThresholdC c.levels a.level with
     | .error e => (c, .err e)
     | .ok t =>
       -- `Handler.__init__`: `for level_name in self._levels_ansi_codes: self.update_format(level_name)`
@@ -202,7 +310,7 @@ def removeLate (c : Core) (id : Int) : Core × Out :=
   else (c, .err .valueError)
 
 def levelOp (c : Core) (name : Str) (no : NoArg) (other : Bool) : Core × Out :=
-  match levelDecision c.levels name no other with
+  match levelDecisionC c.levels name no other with
   | .error e => (c, .err e)
   | .ok none => (c, .ok)
   | .ok (some n) =>
@@ -280,9 +388,40 @@ def log (orc : Oracle) (c : Core) (lv : LevelArg) (M : Option Str) (lazy : Bool)
   | .error e => (c, .err e)
   | .ok r => logTail orc r.1 r.2.1 r.2.2 M lazy
 
+/-- `_log` overlapped, on a cache miss, by a complete `_change_activation` that runs right after the reader
+fetched the rules.  The reader computed `st` from the OLD rules; the writer published a COPY of the cache dict
+(copy-on-write).  `fetched = true` (the code: `enabled = core.enabled` is bound BEFORE the rules are read): the
+fill `enabled[name] = st` lands in the old, unpublished dict and is lost – harmless.  `fetched = false` (the
+refuted shape `core.enabled[name] = st`, i.e. the dict is re-read AFTER the rules): the status computed from the
+old rules is stored in the NEW dict and stays there. -/
+def logDuringG (fetched : Bool) (orc : Oracle) (c : Core) (lv : LevelArg) (M : Option Str) (lazy : Bool)
+    (p : Option Str) (s : Bool) : Core × Out :=
+  if c.handlers.isEmpty then (activate c p s, .delivered [] 0) else
+  match resolveLevel c lv with
+  | .error e => (activate c p s, .err e)
+  | .ok r =>
+    let c1 := r.1
+    if belowMin r.2.2 c1.minLevel then (activate c1 p s, .delivered [] 0) else
+    match c1.enabled.lookup M with
+    | some st =>   -- cache hit: the rules are never read, the change runs after the call
+      (activate c1 p s, if st then .delivered (emitAll orc c1 r.2.1 r.2.2 M) (lazyCount lazy) else .delivered [] 0)
+    | none =>
+      let st := scan c1 M                       -- the OLD rules
+      let c2 := activate c1 p s                 -- the complete change: new rules, new cache dict
+      let c3 := if fetched then c2 else { c2 with enabled := (M, st) :: c2.enabled }
+      (c3, if st then .delivered (emitAll orc c3 r.2.1 r.2.2 M) (lazyCount lazy) else .delivered [] 0)
+
+/-- the overlapped log call of `Op.logDuring`; which dict receives the fill is read from the source
+(`Gen.cacheFillIntoFetchedDict`) -/
+def logDuring (orc : Oracle) (c : Core) (lv : LevelArg) (M : Option Str) (lazy : Bool) (early : Bool)
+    (p : Option Str) (s : Bool) : Core × Out :=
+  if early then log orc (activate c p s) lv M lazy
+  else logDuringG Gen.cacheFillIntoFetchedDict orc c lv M lazy p s
+
 /-- every operation except `configure` -/
 def prim (orc : Oracle) (c : Core) : Op → Core × Out
   | .add a => add c a
+  | .addBad => ({ c with handlersCount := c.handlersCount + 1 }, .err .typeError)
   | .remove id => remove c id
   | .removeAll => removeAll c
   | .removeBad => (c, .err .typeError)
@@ -292,14 +431,22 @@ def prim (orc : Oracle) (c : Core) : Op → Core × Out
   | .activateBad _ => (c, .err .typeError)
   | .configure _ _ _ => (c, .err .other)
   | .log lv M lazy => log orc c lv M lazy
+  | .logDuring lv M lazy early p s => logDuring orc c lv M lazy early p s
 
-/-- `configure`: remove() when handlers are given, then levels, activation, adds – in that order -/
+/-- what one stage of `configure` calls, in list order -/
+def stageOps (handlers : Option (List AddArgs)) (levels : List (Str × NoArg × Bool))
+    (activation : List (Option Str × Bool)) : Gen.CfgStage → List Op
+  | .removeAll => (match handlers with | some _ => [Op.removeAll] | none => [])
+  | .levels => levels.map (fun l => Op.level l.1 l.2.1 l.2.2)
+  | .patcher => []          -- `core.patcher = patcher`: no dispatch state (C12)
+  | .extra => []            -- `core.extra.update(extra)`: no dispatch state (C12)
+  | .activation => activation.map (fun a => Op.activate a.1 a.2)
+  | .adds => (match handlers with | some hs => hs.map Op.add | none => [])
+
+/-- `configure`: its stages in the order of the SOURCE (`Gen.configureOrder`, regenerated) -/
 def expand (handlers : Option (List AddArgs)) (levels : List (Str × NoArg × Bool))
     (activation : List (Option Str × Bool)) : List Op :=
-  (match handlers with | some _ => [Op.removeAll] | none => [])
-    ++ levels.map (fun l => Op.level l.1 l.2.1 l.2.2)
-    ++ activation.map (fun a => Op.activate a.1 a.2)
-    ++ (match handlers with | some hs => hs.map Op.add | none => [])
+  Gen.configureOrder.flatMap (stageOps handlers levels activation)
 
 /-- run until the first exception; collect the ids `add` returned -/
 def runBatch (stepf : σ → Op → σ × Out) : σ → List Op → List Nat → σ × Out
